@@ -158,11 +158,22 @@ def check_graph(spec, opts, ctx, case):
                     ctx.violation(w2, {'what': 'object graph without a non-plain cycle rejected by the unsafe loader', 'exc': yamlapi.exc_sig(err), 'text': text[:800]}, mech)
                 continue
             m = bisim.diff(ref, y, track_tuples=True)
+            if m and ('.seen' in m or '.size' in m) and any(k & SH.EAGER_KINDS for k in real):
+                # an eager reader that lies on a cycle observes the order in which the cycle is closed (pickle hands it the
+                # still empty container, the two-phase constructor the filled one): the property does not define that order
+                ctx.stat('eager_reader_on_a_cycle_order_undefined')
+                continue
             if m:
                 ctx.violation(w2, {'what': 'rebuilt graph differs from what pickle protocol 2 rebuilds', 'diff': m[:400], 'text': text[:1000]},
                               classify(spec, opts, dname, lname, m))
             else:
                 ctx.stat('equal_to_pickle')
+                if opts.get('sort_keys') is False:
+                    # with sort_keys off the document carries the insertion order of every dict and instance dict, as pickle does
+                    mo = bisim.diff(ref, y, ordered=True, track_tuples=True)
+                    ctx.stat('order_comparisons')
+                    if mo:
+                        ctx.violation(w2, {'what': 'sort_keys=False: the order of dict / state entries differs from what pickle protocol 2 rebuilds', 'diff': mo[:400], 'text': text[:1000]}, None)
         # the full loader accepts exactly the tuple / complex / name subset
         try:
             tags = all_tags(text)
